@@ -25,7 +25,7 @@ type Case struct {
 }
 
 func col(v [3]float32) ciexyz.Color { return ciexyz.Color{X: v[0], Y: v[1], Z: v[2]} }
-func v3(v [3]float32) ref.V3         { return ref.V3{float64(v[0]), float64(v[1]), float64(v[2])} }
+func v3(v [3]float32) ref.V3        { return ref.V3{float64(v[0]), float64(v[1]), float64(v[2])} }
 
 func finite(xs ...float32) bool {
 	for _, x := range xs {
